@@ -156,7 +156,17 @@ fn kappa(d: &[C64], n: usize) -> f64 {
 
 fn run_div<N: Sc>(rep: &mut Report, c: &DivCase) {
     let fld = N::NAME;
-    let pa: Polynomial<N> = build(&c.a, c.tol_a, c.from_slice);
+    let mut pa: Polynomial<N> = build(&c.a, c.tol_a, c.from_slice);
+    // history on the dividend: a rejected call must leave it unchanged (every fifth case, decided by the data)
+    if (c.a.len() + c.d.len()) % 5 == 0 {
+        let r = pa.set_tolerance(-1.0);
+        rep.count("dividends_after_a_rejected_set_tolerance", 1);
+        if r.is_ok() {
+            rep.violation("set_tolerance/negative-accepted", c.to_json(), "set_tolerance(-1.0) on the dividend returned Ok".into());
+            return;
+        }
+    }
+    let pa = pa;
     let pd: Polynomial<N> = match c.kind {
         Kind::ZeroDivisor(f) => zero_poly::<N>(f),
         _ => build(&c.d, c.tol_d, c.from_slice),
